@@ -5,7 +5,9 @@
     2Q and ARC, which are the same types) are this machine with a projection.  The theorems hold
     for every list — hence for every reachable cache state, empty and single-entry lists
     included — and every request sequence of any length. *)
-From VF Require Import Base Iter Enc Lru LruStep BaseFacts LruFacts C13Proofs C14Proofs.
+From VF Require Import Base Iter Enc Lru LruStep BaseFacts LruFacts C13Proofs C14Proofs
+  Heap HeapFacts HeapOps HeapMulti HeapIterDef HeapIter.
+From Coq Require Import List.
 
 (** exactly once, in order, never skipping: the entries yielded from the front (in yield order),
     the entries not yet yielded, and the entries yielded from the back (reversed) always
@@ -75,6 +77,32 @@ Example C14_witness :
   = [(Some (1, 10), 2%nat); (Some (3, 30), 1%nat); (Some (2, 20), 0%nat); (None, 0%nat); (None, 0%nat)].
 Proof. vm_compute. reflexivity. Qed.
 
+(** the pointer clause: on the heap (layer H of C03) an iterator is a countdown and two cursors; for every
+    script on a well-formed list the items are those of the list-level machine above, every cursor
+    dereference hits a linked node (never a sentinel, never a freed cell), the nodes handed out are
+    pairwise distinct (so no two [&mut V] alias), and the chain keeps its nodes *)
+Theorem C14_heap_iter : forall h q l lru_order rs,
+  wf h q l ->
+  exists it h' it' ads l',
+    h_iter h q = HOk it /\
+    h_it_run h it lru_order rs = HOk (h', it', fst (fst (it_run lru_order rs (entries l))), ads) /\
+    wf h' q l' /\ addrs l' = addrs l /\ NoDup ads /\ (forall a, In a ads -> In a (addrs l)) /\
+    fresh h' = fresh h /\ (forall x, ~ In x (addrs l) -> cells h' x = cells h x) /\
+    entries l' = apply_writes (snd (it_run lru_order rs (entries l))) (entries l).
+Proof. exact h_iter_safe. Qed.
+
+(** ... and over one list of a composite cache (2Q, ARC, the segments of an SLRU): the other lists and the
+    nodes in flight are untouched, the family stays separated *)
+Theorem C14_heap_family_iter : forall h F1 q l F2 fl lru_order rs,
+  fam h (F1 ++ (q, l) :: F2) fl ->
+  exists it h' it' ads l',
+    h_iter h q = HOk it /\
+    h_it_run h it lru_order rs = HOk (h', it', fst (fst (it_run lru_order rs (entries l))), ads) /\
+    fam h' (F1 ++ (q, l') :: F2) fl /\ addrs l' = addrs l /\ NoDup ads /\ (forall a, In a ads -> In a (addrs l)) /\
+    entries l' = apply_writes (snd (it_run lru_order rs (entries l))) (entries l) /\
+    (forall x, ~ In x (addrs l) -> cells h' x = cells h x).
+Proof. exact fam_iter. Qed.
+
 Print Assumptions C14_exactly_once_in_order.
 Print Assumptions C14_len_exact.
 Print Assumptions C14_count.
@@ -85,3 +113,5 @@ Print Assumptions C14_projections.
 Print Assumptions C14_mut_keeps_order.
 Print Assumptions C14_immutable_changes_nothing.
 Print Assumptions C14_clone_independent.
+Print Assumptions C14_heap_iter.
+Print Assumptions C14_heap_family_iter.
